@@ -3,3 +3,5 @@ import XcmModel.Libc
 import XcmModel.AttrMap
 import XcmModel.AttrPath
 import XcmModel.Addr
+import XcmModel.Wire
+import XcmModel.Framing
